@@ -381,6 +381,11 @@ def scene_vla(c):
             "%s (*p)[n * m] = &a; chk_i64((char *)*p - (char *)a); chk_u64(sizeof *p); chk_i64((*p)[n * m - 1] == a[n * m - 1]);" % et,
             "chk_i64(&a[n * m - 1] - &a[0]);"]
     if d(st.booleans()):
+        # a typedef of a VLA type fixes its length where it is declared; its first uses sit in sibling branches
+        body += ["{ typedef %s TV[n + 1]; n += 2;" % et, "  if (m & 1) { TV v; v[n - 2] = 1; chk_u64(sizeof v); chk_i64((long)v[n - 2]); } else { TV w; w[0] = 2; chk_u64(sizeof w + 1); }",
+                 "  chk_u64(sizeof(TV)); for (int i = 0; i < 2; i++) { TV z; z[n - 2] = (%s)i; chk_u64(sizeof z + (unsigned)z[n - 2]); } n -= 2; }" % et]
+        c.labels.add("vla-typedef")
+    if d(st.booleans()):
         body += ["char *q = __builtin_alloca(n * 8 + 1);", "for (int i = 0; i < n * 8 + 1; i++) q[i] = (char)i;", "chk_i64(q[n * 8] + q[0]);"]
         c.labels.add("alloca")
     if d(st.booleans()):
